@@ -530,7 +530,7 @@ func R08(group string) Rule {
 							fmt.Sprintf("%s is chosen although the range %s is not known to be %s here: an empty (absent) bound is handed to a bounded scan, or a present bound is ignored — the engines differ on empty bounds", ci.Method.Name(), field, map[int]string{1: "absent", -1: "present"}[w]))
 					}
 				}
-			// rows_limit is tested at the start of every callback invocation, before a row is added
+				// rows_limit is tested at the start of every callback invocation, before a row is added
 				isLimit := func(v ssa.Value) bool {
 					return provenanceAll(P, core.PkgBttest, v, func(o ssa.Value) (bool, bool) {
 						if loadsField(o, "RowsLimit") {
